@@ -56,6 +56,31 @@ impl Server {
     pub fn stderr_panics(&self) -> Vec<String> {
         std::fs::read_to_string(&self.stderr_path).unwrap_or_default().lines().filter(|l| l.contains("panicked at")).map(|l| l.chars().take(300).collect()).collect()
     }
+    /// sanitizer reports (ASan / TSan builds of the server): (class, block)
+    pub fn stderr_sanitizer_reports(&self) -> Vec<(String, String)> {
+        let s = std::fs::read_to_string(&self.stderr_path).unwrap_or_default();
+        let mut v = Vec::new();
+        for (marker, kind) in [("ERROR: AddressSanitizer", "asan"), ("WARNING: ThreadSanitizer", "tsan")] {
+            let mut from = 0;
+            while let Some(p) = s[from..].find(marker) {
+                let start = from + p;
+                let blk: String = s[start..].chars().take(3000).collect();
+                // first frame inside the repository
+                let frame = blk.find("/repo/src/").map(|q| blk[q + 6..].chars().take_while(|c| !c.is_whitespace() && *c != ':').collect::<String>());
+                let head: String = blk.lines().next().unwrap_or("").chars().take(100).collect();
+                let class = match &frame {
+                    Some(f) => format!("{}:{}@{}", kind, head.split(':').nth(2).unwrap_or("").trim().chars().take(50).collect::<String>(), f),
+                    None => format!("{}-note-without-repo-frame", kind),
+                };
+                v.push((class, blk));
+                from = start + marker.len();
+                if v.len() > 20 {
+                    break;
+                }
+            }
+        }
+        v
+    }
     pub fn stderr_tail(&self) -> String {
         let s = std::fs::read_to_string(&self.stderr_path).unwrap_or_default();
         s.lines().rev().take(8).collect::<Vec<_>>().into_iter().rev().collect::<Vec<_>>().join(" | ")
